@@ -22,10 +22,12 @@ int vprop_fork = 1;
 int vprop_cpu_limit_s = 20;
 const char *vprop_class_names[V_NCLASS] = {
   "target_avx", "target_sse", "target_mmx", "bits32", "frame_pointer", "short_jumps", "single_opcode",
-  "random_program", "has_branch", "two_d", "x2x4", "float", "reduced_features", "compiled", NULL
+  "random_program", "has_branch", "two_d", "x2x4", "float", "reduced_features", "compiled", "target_neon32", "target_mips", NULL
 };
 
-static const char *tnames[3] = { "avx", "sse", "mmx" };
+static const char *tnames[5] = { "avx", "sse", "mmx", "neon", "mips" };
+static const char *rec_names[5] = { "avx", "sse", "mmx", "neon", "mips" };
+static int cross;                 /* --set family=cross: the non-x86 back ends whose listings llvm-mc can assemble (C12 only) */
 static int ops[256], n_ops;
 static const char *outpath;
 
@@ -39,18 +41,25 @@ void vprop_init (int argc, char **argv)
     ops[n_ops++] = i;
   }
   outpath = v_arg ("out", NULL);
+  cross = !strcmp (v_arg ("family", "x86"), "cross");
 }
 
 /* configuration index -> flags.  feature subsets:
  *  sse: 16 subsets of {SSE3,SSSE3,SSE4_1,SSE4_2} (SSE2 always)          x bits x fp x sj = 128
  *  avx: {AVX|AVX2, AVX only} x 4 subsets of {SSE4_1? no: SSSE3..} kept full              x 8 = 16
  *  mmx: 8 subsets of {MMXEXT,SSSE3,SSE4_1} (MMX always)                  x 8  = 64 */
-static int n_cfg (int t) { return t == 1 ? 128 : t == 0 ? 16 : 64; }
+static int n_cfg (int t) { return t >= 3 ? 1 : t == 1 ? 128 : t == 0 ? 16 : 64; }
 
 static unsigned cfg_flags (int t, int cfg, int *bits32, int *fp, int *sj, int *reduced)
 {
   unsigned f = 0;
   int feat = cfg >> 3;
+  if (t >= 3) {
+    *fp = *sj = *reduced = 0;
+    *bits32 = 1;
+    if (t == 3) return ORC_TARGET_NEON_NEON;        /* 32-bit NEON; the 64-bit listings are outside the property's quantifier */
+    return orc_target_get_default_flags (orc_target_get_by_name ("mips"));
+  }
   *bits32 = cfg & 1; *fp = (cfg >> 1) & 1; *sj = (cfg >> 2) & 1;
   if (t == 1) {
     f = ORC_TARGET_SSE_SSE2;
@@ -107,6 +116,11 @@ uint64_t vprop_enum_count (const char *tier)
   int i;
   uint64_t tot = 0, per;
   enum_thorough = !strcmp (tier, "thorough");
+  if (cross) {
+    for (i = 0; i < n_ops; i++) { enum_prefix[i] = tot; tot += (uint64_t) ps_single_forms (&v_optab[ops[i]]) * 2; }
+    enum_prefix[n_ops] = tot;
+    return tot;
+  }
   per = enum_thorough ? (uint64_t) (n_cfg (0) + n_cfg (1) + n_cfg (2))
                       : (uint64_t) (quick_cfgs_per_target[0] + quick_cfgs_per_target[1] + quick_cfgs_per_target[2]);
   for (i = 0; i < n_ops; i++) {
@@ -128,6 +142,7 @@ size_t vprop_enum_stream (uint64_t idx, uint32_t *out, size_t max)
                       : (uint64_t) (quick_cfgs_per_target[0] + quick_cfgs_per_target[1] + quick_cfgs_per_target[2]);
   while (i + 1 < n_ops && enum_prefix[i + 1] <= idx) i++;
   rel = idx - enum_prefix[i];
+  if (cross) { out[n++] = 1; out[n++] = (uint32_t) i; out[n++] = (uint32_t) (rel / 2); out[n++] = (uint32_t) (rel % 2); out[n++] = 0; return n; }
   form = rel / per; k = rel % per;
   if (enum_thorough) {
     if (k < (uint64_t) n_cfg (0)) { t = 0; cfg = (int) k; }
@@ -159,7 +174,7 @@ static void emit_record (VResult *r, VChoices *c, const ProgSpec *ps, int t, uns
   cap = strlen (asm_code) + (size_t) code_size * 2 + c->n * 11 + 8192;
   buf = (char *) malloc (cap);
   len += (size_t) snprintf (buf + len, cap - len, "@@case target=%s flags=0x%x bits=%d result=%s name=%s hash=%016llx\n@@stream",
-      tnames[t], flags, bits32 ? 32 : 64, v_result_name (res), ps->name, (unsigned long long) ps_hash (ps));
+      rec_names[t], flags, bits32 ? 32 : 64, v_result_name (res), ps->name, (unsigned long long) ps_hash (ps));
   for (i = 0; i < c->n; i++) len += (size_t) snprintf (buf + len, cap - len, " %u", c->v[i]);
   len += (size_t) snprintf (buf + len, cap - len, "\n@@prog\n");
   len += (size_t) ps_sprint_orc (ps, buf + len, cap - len);
@@ -193,13 +208,13 @@ void vprop_case (VChoices *c, VResult *r)
     go.single_opcode = ops[vc_pick (c, (uint32_t) n_ops)];
     go.single_form = (int) vc_pick (c, (uint32_t) ps_single_forms (&v_optab[go.single_opcode]));
   }
-  t = (int) vc_pick (c, 3);
+  t = cross ? 3 + (int) vc_pick (c, 2) : (int) vc_pick (c, 3);
   cfg = (int) vc_pick (c, (uint32_t) n_cfg (t));
   ps_generate (c, &go, &ps, r);
   target = orc_target_get_by_name (tnames[t]);
   flags = cfg_flags (t, cfg, &bits32, &fp, &sj, &reduced);
 
-  v_desc (r, "# %s target=%s flags=0x%x bits=%d %s\n", vprop_id, tnames[t], flags, bits32 ? 32 : 64,
+  v_desc (r, "# %s target=%s flags=0x%x bits=%d %s\n", vprop_id, rec_names[t], flags, bits32 ? 32 : 64,
       single ? "single-opcode" : "random-program");
   ps_print (&ps, r);
   h = ps_hash (&ps);
@@ -211,7 +226,7 @@ void vprop_case (VChoices *c, VResult *r)
   p = ps_build (&ps);
   res = orc_program_compile_full (p, target, flags);
   v_desc (r, "# compile result: %s code_size=%d\n", v_result_name (res), p->orccode ? p->orccode->code_size : 0);
-  r->classes |= 1u << t;
+  r->classes |= t < 3 ? 1u << t : 1u << (11 + t);
   if (bits32) r->classes |= 1u << 3;
   if (fp) r->classes |= 1u << 4;
   if (sj) r->classes |= 1u << 5;
